@@ -44,7 +44,8 @@ Qed.
 Lemma stopped2_suffix s tr : suffix s tr -> stopped2 s = true -> stopped2 tr = true.
 Proof. intros [p ->] H. induction p as [|ev p IH]; [assumption|]. apply stopped2_cons, IH. Qed.
 
-(** the thread has not yet tested the completed flag for its current reservation *)
+(** the thread has not yet tested the completed flag for its current reservation, or (at its turn, [PChkT])
+    it is about to test it once more *)
 Definition before_gate (p : pc) : bool :=
   match p with PLdY _ _ | PSrc _ _ _ | PSetF _ _ _ | PPub _ _ _ | PUnw _ _ _ | PLen2 _ => false | _ => true end.
 
@@ -550,6 +551,22 @@ Proof.
   - rewrite <- Ef. apply iB_chkf_go; assumption.
 Qed.
 
+(** its turn: the second look at the completed flag *)
+Lemma iB_chkt c t q b :
+  IInvA e L c -> IInvB c -> In t L -> t_pc (c_pool c t) = PChkT q b -> IInvB (step e c t).
+Proof.
+  intros A I Hin Hpc. rewrite (istep_chkt e c t q b Hpc).
+  destruct (s_f (c_sh c)) eqn:Ef.
+  - apply iB_finish_end; try assumption; auto.
+    + rewrite Hpc. reflexivity.
+    + intros Hfu BF. split; [auto|split; [left; exact Ef|apply (bf_cs c BF)]].
+  - apply iB_silent; try assumption; auto.
+    + apply nt_keep; try assumption; auto; rewrite Hpc; auto.
+    + intros q0 b0 g H. discriminate H.
+    + intros hm o older H. discriminate H.
+    + intros Hfu BF. split; [auto|split; [auto|apply (bf_cs c BF)]].
+Qed.
+
 Lemma iB_setf c t q b g :
   IInvA e L c -> IInvB c -> In t L -> t_pc (c_pool c t) = PSetF q b g -> IInvB (step e c t).
 Proof.
@@ -914,13 +931,14 @@ Qed.
 Lemma iB_step c t : IInvA e L c -> IInvB c -> In t L -> istep_nowrap c t -> IInvB (step e c t).
 Proof.
   intros A I Hin Hw. unfold istep_nowrap in Hw.
-  destruct (t_pc (c_pool c t)) as [|q|q b|q b|q b got|q b got|q b got|q b got| |hm|hm] eqn:Hpc.
+  destruct (t_pc (c_pool c t)) as [|q|q b|q b|q b|q b got|q b got|q b got|q b got| |hm|hm] eqn:Hpc.
   - destruct (t_todo (c_pool c t)) as [|o rest] eqn:Htodo.
     + rewrite (istep_idle_nil e) by assumption. exact I.
     + rewrite (istep_idle_call e c t o rest) by assumption. apply iB_call; assumption.
   - apply iB_res with q; assumption.
   - apply iB_chkf with q b; assumption.
   - apply iB_ldy with q b; assumption.
+  - apply iB_chkt with q b; assumption.
   - apply iB_src with q b got; assumption.
   - apply iB_setf with q b got; assumption.
   - apply iB_pub with q b got; assumption.
